@@ -205,8 +205,21 @@ VlogInit == << Cnew("N", "n"), Ccreate("NL", 1, "work", 0),
                Cconnect(9, IPin(6)), Cconnect(10, IPin(7)), Cconnect(11, IPin(8)),
                Csettopdef(1, 3), [op |-> "set_name", kind |-> "I", x |-> 1, val |-> "top"],
                Cchild(2, "l", 1), Cchild(3, "m", 2) >>
+(* assign statements, as spydrnet represents them: instances of SDN_VERILOG_ASSIGNMENT_<width> (ports i, o) *)
+VlogAssignInit == VlogInit \o <<
+               Ccreate("NL", 1, "SDN_VERILOG_ASSIGNMENT", 0),
+               Ccreate("LD", 2, "SDN_VERILOG_ASSIGNMENT_1", 0), Ccreate("LD", 2, "SDN_VERILOG_ASSIGNMENT_2", 0),
+               Ccreate("DP", 4, "i", 1), Ccreate("DP", 4, "o", 1), Ccreate("DP", 5, "i", 2), Ccreate("DP", 5, "o", 2),
+               [op |-> "set_dir", x |-> 7, ival |-> 2], [op |-> "set_dir", x |-> 8, ival |-> 3],
+               [op |-> "set_dir", x |-> 9, ival |-> 2], [op |-> "set_dir", x |-> 10, ival |-> 3],
+               Cchild(2, "SDN_VERILOG_ASSIGNMENT_1_0", 4), Cchild(3, "SDN_VERILOG_ASSIGNMENT_2_1", 5),
+               \* assign n[0] = a[0];   in mid
+               Cconnect(3, OPin(4, 9)), Cconnect(6, OPin(4, 10)),
+               \* assign m[1:0] = u;    in top
+               Cconnect(10, OPin(5, 11)), Cconnect(11, OPin(5, 12)), Cconnect(12, OPin(5, 13)), Cconnect(13, OPin(5, 14)) >>
 VlogOpts == [order : {"asis", "reversed"}, ansi : BOOLEAN, positional : BOOLEAN, concat : BOOLEAN,
-             escaped : BOOLEAN, comments : BOOLEAN, celldefine : BOOLEAN, grouped : BOOLEAN, escmod : BOOLEAN]
+             escaped : BOOLEAN, comments : BOOLEAN, celldefine : BOOLEAN, grouped : BOOLEAN, escmod : BOOLEAN,
+             undeclared : BOOLEAN]
 (* declaration styles: a leaf with two vector ports of one direction and range, instanced with every bit tied *)
 VlogDeclInit == << Cnew("N", "n"), Ccreate("NL", 1, "work", 0),
                Ccreate("LD", 1, "pair", 0), Ccreate("LD", 1, "top", 0),
@@ -437,6 +450,8 @@ ScopeTable ==
     eblif_latch_rt |-> [EblifScope({"eblif_rt"}) EXCEPT !.init = EblifLatchInit, !.ops = {"b:connect"}],
     vlog_read |-> VlogScope({"vlog_read"}),
     vlog_rt |-> VlogScope({"vlog_rt"}),
+    vlog_assign |-> [VlogScope({"vlog_read", "vlog_rt"}) EXCEPT !.init = VlogAssignInit, !.ops = {"b:connect", "set_k:C"},
+                       !.max = [N |-> 1, L |-> 2, D |-> 5, P |-> 10, C |-> 10, I |-> 5, Q |-> 14, W |-> 15]],
     vlog_decl |-> [VlogScope({"vlog_read", "vlog_rt", "vlog_all"}) EXCEPT !.init = VlogDeclInit, !.ops = {}, !.parents = {}],
     edif_names |-> [init |-> NameInit, ops |-> {}, max |-> MaxAll(0), names |-> {}, vals |-> {}, pos |-> {NoPos},
                     createN |-> {0}, queries |-> {"C17"}, walk |-> FALSE],
